@@ -325,6 +325,20 @@ Fixpoint dedupe_sets (l : list (list N)) : list (list N) :=
 (** host node sets that keep a representative = host node sets of the unpruned result (pattern -> host orientation) *)
 Definition host_sets (maps : list mapping) : list (list N) := dedupe_sets (map host_set maps).
 
+(** VF2's choice as an explicit parameter (round 4).  [choices] = for every host node set the mapping (pattern -> host) that
+    VF2 enumerates FIRST, in any order (the harness obtains them from networkx alone).  Choices that are not mappings of the
+    unpruned result (e.g. of levels the maximum mode never reaches) are ignored; the remaining ones must represent every
+    host node set exactly once -- otherwise the parameter is rejected.  The kept list is sorted like every result. *)
+Fixpoint nodup_sets (l : list (list N)) : bool :=
+  match l with
+  | [] => true
+  | x :: r => negb (existsb (nlist_eqb x) r) && nodup_sets r
+  end.
+Definition apply_choices (maps choices : list mapping) : option (list mapping) :=
+  let cs := filter (fun c => seen c maps) (map sort_items choices) in
+  if nodup_sets (map host_set cs) && forallb (fun hs => existsb (nlist_eqb hs) (map host_set cs)) (host_sets maps)
+  then Some (sort_results cs) else None.
+
 (* ---------- observables ---------- *)
 Definition tmap (m : mapping) : tok := tset (tpair tN tN) m.
 
@@ -334,6 +348,19 @@ Definition run_matcher (defs : list N) (prune : bool) (wc : N) (g1 g2 : graph) (
      tlist tmap (get_mappings PatternToHost r);
      tlist tmap (get_mappings G1toG2 r);
      tlist tmap (get_mappings G2toG1 r)].
+
+Definition run_matcher_auto_with (defs : list N) (prune : bool) (wc : N) (g1 g2 : graph) (mcs : bool)
+           (choices : list mapping) : tok :=
+  let r := find_common_subgraph defs prune wc g1 g2 mcs in
+  match apply_choices (r_maps r) choices with
+  | None => L [tbool (r_pattern_is_g1 r); tnat (r_last r); tnat (r_tried r); I (-1)]
+  | Some kept =>
+      let r' := {| r_maps := kept; r_last := r_last r; r_tried := r_tried r; r_pattern_is_g1 := r_pattern_is_g1 r |} in
+      L [tbool (r_pattern_is_g1 r'); tnat (r_last r'); tnat (r_tried r');
+         tlist tmap (get_mappings PatternToHost r');
+         tlist tmap (get_mappings G1toG2 r');
+         tlist tmap (get_mappings G2toG1 r')]
+  end.
 
 Definition run_matcher_auto (defs : list N) (prune : bool) (wc : N) (g1 g2 : graph) (mcs : bool) : tok :=
   let r := find_common_subgraph defs prune wc g1 g2 mcs in
